@@ -1,7 +1,28 @@
 import os
+import re
 
 import lib
 from lib import TieCheck
+
+
+def broken_lemmas(log, area="C18"):
+    """'File "./BridgeStrat.v", line 57' -> 'BridgeStrat.v: gen_Chain_eq (line 57)'."""
+    out = []
+    for m in re.finditer(r'File "\./([A-Za-z0-9_]+\.v)", line (\d+)', log):
+        f, ln = m.group(1), int(m.group(2))
+        try:
+            src = open(os.path.join(lib.COQ, area, f)).read().splitlines()[:ln]
+        except OSError:
+            continue
+        name = None
+        for line in src:
+            mm = re.match(r"\s*(?:Lemma|Theorem|Corollary|Example|Fact|Definition|Fixpoint)\s+([A-Za-z0-9_']+)", line)
+            if mm:
+                name = mm.group(1)
+        item = "%s: %s (line %d)" % (f, name, ln)
+        if item not in out:
+            out.append(item)
+    return out
 
 
 class C18(TieCheck):
@@ -13,6 +34,12 @@ class C18(TieCheck):
     # gen_SplitHostZone = ParseIP.split_host_zone) and clientip.trimMatchedEnds into coq/Gen/GenEsc.v (BridgeEsc.v:
     # = ParseIP.trim_matched_ends); GenTie.props("C18") = Props_Gen.v, Props_Gen_wild.v, Props_Gen_esc.v
     gentie = "C18"
+    # the check's own theorems and the correspondence are built without the strategy tie-A files (StratSem / GenStrat /
+    # BridgeStrat / Props_GenStrat): a broken tie is reported as such (gen) and the cases are still evaluated
+    coq_targets = ["Corr.vo"]
+    # tie A for the strategies (docs/GenC18.md): the ClientIP methods, lastHeader and the two sequence builders
+    # regenerated from the tree under test, proved equal to Entries.v / Strategies.v / Model.resolve for all inputs
+    extra_props = [("C18", "Props_GenStrat.v")]
     extra_trust = [
         "tie A: coq/C18/GenRanges.v is rewritten on every run by harness/cmd/c18gen (go/ast over clientip/clientip.go; "
         "refuses unknown shapes; uses the same net.ParseCIDR as the code)",
@@ -20,6 +47,12 @@ class C18(TieCheck):
         "coq/C18/GoStd.v + ParseIP.v: unverified Gallina mirrors of strings.TrimSpace, strings.EqualFold(_, \"for\"), "
         "net.SplitHostPort, net.ParseIP (go1.24) and of clientip.ParseIPAddr; compared with the real functions on every run; "
         "the specification uses the same parse function as its oracle of what text is an address",
+        "tie A: coq/C18/GenStrat.v is rewritten on every run by harness/cmd/stratgen (go/ast + go/types over clientip/clientip.go: "
+        "the ClientIP methods of Chain, RemoteAddr, SingleIPHeader, LeftmostNonPrivate, RightmostNonPrivate, RightmostTrustedCount, "
+        "RightmostTrustedRange, lastHeader, the iteration plumbing of ipAddrSeq / backwardIpAddrSeq); coq/C18/BridgeStrat.v proves "
+        "Entries.ip_addr_seq / backward_ip_addr_seq, the strategy models of Strategies.v and Model.resolve equal to it for all inputs; "
+        "trusted: stratgen itself and the primitives of coq/C18/StratSem.v (docs/GenC18.md); splitting, trimming and parsing of "
+        "one entry (iterutil, parseForwardedListItem, ParseIPAddr) stay the hand-written mirrors",
         "model: coq/C18/Entries.v, Strategies.v, Model.v transliterate clientip.go:88-583 and internal/iterutil; spec: coq/C18/Spec.v + Corr.spec_resolve",
     ]
     assumptions = [
@@ -41,13 +74,42 @@ class C18(TieCheck):
         out = os.path.join(lib.COQ, self.area, "GenRanges.v")
         with lib.Lock("coq." + self.area):
             rc, o = lib.sh([hb, "repo=" + os.path.abspath(lib.REPO), "out=" + out], env=lib.go_env(), timeout=300)
-        return rc == 0, "c18gen: " + o
+        ok2, o2 = self.gen_strategies()
+        if rc == 0 and not ok2:
+            return False, o2
+        return rc == 0 and ok2, "c18gen: " + o + "\n" + o2
+
+    def gen_strategies(self):
+        """tie A for the strategies: stratgen rewrites coq/C18/GenStrat.v from the tree under test, then BridgeStrat.v /
+        Props_GenStrat.v are rebuilt.  A refusal or a bridge lemma that no longer compiles is a broken tie; the lemma is
+        named."""
+        exe, o = lib.build_harness("stratgen")
+        if exe is None:
+            return False, "stratgen build failed:\n" + o[-2000:]
+        with lib.Lock("coq." + self.area):
+            rc, og = lib.sh([exe, "repo=" + os.path.abspath(lib.REPO), "out=" + os.path.join(lib.COQ, self.area, "GenStrat.v")],
+                            env=lib.go_env(), timeout=300)
+        refused = "\n".join(l for l in og.splitlines() if "REFUSED" in l)
+        build = getattr(self, "_coq_build_orig", None) or lib.coq_build
+        okb, lb = build(self.area, targets=["Props_GenStrat.vo"])
+        if rc == 0 and okb:
+            return True, og
+        bl = broken_lemmas(lb, self.area) if not okb else []
+        named = ("broken bridge lemma: " + ", ".join(bl)) if bl else ""
+        k = lb.find('File "./')
+        err = "" if okb else (lb[k:k + 600] if k >= 0 else lb[-600:])
+        head = ("tie A (stratgen, docs/GenC18.md): the client-IP strategies of %s/clientip/clientip.go are no longer proved "
+                "equal to coq/C18/Strategies.v / Entries.v" % lib.REPO)
+        # the summary lines first: the framework prints the first 1500 characters of a problem
+        msg = "\n".join(x for x in [head, ("==> " + refused[:500]) if refused else "", ("==> " + named[:300]) if named else "", err] if x)
+        return False, msg
 
     def run(self, tier, seed, replay=None):
         # Keep the cases evaluable when only a proof file (e.g. the range audit over a
         # regenerated table) no longer compiles: fall back to building the model closure
         # (Corr.vo).  The broken proof is still reported, by the coqc run on Props_C18.v.
         orig = lib.coq_build
+        self._coq_build_orig = orig
         area = self.area
 
         def build(a, clean=False, _seen=None, **kw):
